@@ -703,16 +703,97 @@ Fixpoint scan_level (s : store) (e : env) (rt : rtype) (primary : bool) (cs : li
    reverse indices list the direct targets only.  The evaluator uses the first for RESOURCE as a
    filter of ANNOTATION queries, for DATA/KEY constraints as the source of RESOURCE queries and for
    ANNOTATION AS METADATA as the source of DATA / KEY queries; the indices everywhere else. *)
+(* The selectors of a Multi/Composite selector are stored sorted (AnnotationStore::subselectors:
+   text by resource and position, then resources, data sets, whole annotations by handle, keys,
+   data), those of a Directional selector as given; neighbours that name consecutive annotations
+   (whole annotations, or annotation selectors in BeginEnd mode covering the whole text of their
+   target) are merged into an internal RangedAnnotationSelector - and SelectorIter does not follow
+   the members of such a range. *)
+Fixpoint lex_ltb0 (a b : list nat) : bool :=
+  match a, b with
+  | [], [] => false
+  | [], _ => true
+  | _, [] => false
+  | x :: a', y :: b' => if x <? y then true else if y <? x then false else lex_ltb0 a' b'
+  end.
+Definition leaf_sortkey (s : store) (lf : leaf) : list nat :=
+  match lf with
+  | LText r _ _ | LAnnText _ r _ _ =>
+      match leaf_text s lf with (_, b, e) :: _ => [0; r; b; e] | [] => [0; r; 0; 0] end
+  | LRes r => [1; r]
+  | LSet d => [2; d]
+  | LAnn a => [3; a]
+  | LKey d k => [4; d; k]
+  | LData d x => [5; d; x]
+  end.
+Fixpoint ins_leaf_by (s : store) (x : leaf) (l : list leaf) : list leaf :=
+  match l with
+  | [] => [x]
+  | y :: l' => if lex_ltb0 (leaf_sortkey s x) (leaf_sortkey s y) then x :: l else y :: ins_leaf_by s x l'
+  end.
+Definition stored_leaves (s : store) (a : ann) : list leaf :=
+  if Nat.eqb (a_kind a) 3 then a_leaves a
+  else fold_left (fun acc x => ins_leaf_by s x acc) (a_leaves a) [].
+
+(* an annotation selector in BeginEnd mode that covers the whole text of its target *)
+Definition whole_anntext (s : store) (lf : leaf) : option nat :=
+  match lf with
+  | LAnnText a r t 1 =>
+      match get_ann s a with
+      | Some an =>
+          match ann_textsel s an, leaf_text s lf with
+          | Some (r', _, (pb, pe)), (_, b, e) :: _ =>
+              if Nat.eqb r r' && Nat.eqb b pb && Nat.eqb e pe then Some a else None
+          | _, _ => None
+          end
+      | None => None
+      end
+  | _ => None
+  end.
+(* 1: whole annotation a, 2: whole-text annotation selector on a *)
+Definition range_class (s : store) (lf : leaf) : option (nat * nat) :=
+  match lf with
+  | LAnn a => Some (1, a)
+  | _ => match whole_anntext s lf with Some a => Some (2, a) | None => None end
+  end.
+(* is the leaf at position i merged with a neighbour? *)
+Definition merged_at (s : store) (l : list leaf) (i : nat) : bool :=
+  match nth_error l i with
+  | Some lf =>
+      match range_class s lf with
+      | Some (c, a) =>
+          (match i with 0 => false | S j => match nth_error l j with
+                                            | Some lf' => match range_class s lf' with
+                                                          | Some (c', a') => Nat.eqb c c' && Nat.eqb (S a') a
+                                                          | None => false
+                                                          end
+                                            | None => false
+                                            end end)
+          || (match nth_error l (S i) with
+              | Some lf' => match range_class s lf' with
+                            | Some (c', a') => Nat.eqb c c' && Nat.eqb a' (S a)
+                            | None => false
+                            end
+              | None => false
+              end)
+      | None => false
+      end
+  | None => false
+  end.
+
 Fixpoint reach_leaves (s : store) (fuel : nat) (a : ann) : list leaf :=
   match fuel with
   | 0 => []
   | S f =>
-      flat_map (fun lf =>
+      let l := stored_leaves s a in
+      flat_map (fun p =>
+                  let lf := snd p in
                   lf :: match lf with
                         | LAnn a' | LAnnText a' _ _ _ =>
-                            match get_ann s a' with Some an' => reach_leaves s f an' | None => [] end
+                            if merged_at s l (fst p) then []
+                            else match get_ann s a' with Some an' => reach_leaves s f an' | None => [] end
                         | _ => []
-                        end) (a_leaves a)
+                        end) (combine (seq 0 (length l)) l)
   end.
 Definition reaches (s : store) (P : leaf -> bool) (a : ann) : bool :=
   existsb P (reach_leaves s (S (length (anns s))) a).
@@ -741,6 +822,14 @@ Definition sat_impl (s : store) (e : env) (primary : bool) (c : cst) (it : item)
         | None => false
         end
       else sat_base s e c it
+  | IText r b en, CRel v k =>
+      (* as a filter: filter_any(related_text(..).to_handles()) - only text selections the resource
+         knows have a handle (an occurrence found by find_text may be none of them) *)
+      if primary then sat_base s e c it
+      else match get_res s r with
+           | Some rs => existsb (fun rg => Nat.eqb (fst rg) b && Nat.eqb (snd rg) en) (r_sels rs) && sat_base s e c it
+           | None => false
+           end
   | IData d x, CAnn y true =>
       match r_ann s e y with
       | Some yh => match get_ann s yh with Some ya => reaches s (on_data d x) ya | None => false end
